@@ -224,15 +224,32 @@ func (ipItems *IPItems) Sort() {
 	// Sort items according startIP by descending order
 	sort.Sort(ipItems.items)
 
-	// Merge item lines
-	mergedNum := ipItems.mergeItems()
-	length := len(ipItems.items) - mergedNum
+	// Merge item lines.
+	// Note: items are merged into a new list rather than marked with a zero
+	// address, as a zero address (0.0.0.0 or ::) is also a valid startIP/endIP.
+	// Scan items by ascending order of startIP (i.e. from the end)
+	items := ipItems.items
+	merged := make(ipPairs, 0, len(items))
+	for i := len(items) - 1; i >= 0; i-- {
+		item := items[i]
+		last := len(merged) - 1
+		if last >= 0 && bytes.Compare(item.startIP, merged[last].endIP) <= 0 {
+			// item overlaps with the last merged item
+			if bytes.Compare(item.endIP, merged[last].endIP) > 0 {
+				merged[last].endIP = item.endIP
+			}
+			continue
+		}
+		merged = append(merged, item)
+	}
 
-	// Sort items according startIP by descending order
-	sort.Sort(ipItems.items)
+	// Restore descending order of startIP
+	for i, j := 0, len(merged)-1; i < j; i, j = i+1, j-1 {
+		merged[i], merged[j] = merged[j], merged[i]
+	}
 
 	// Reslice
-	ipItems.items = ipItems.items[0:length]
+	ipItems.items = merged
 }
 
 // Length return num of IPItems
